@@ -43,7 +43,8 @@ CLAIM = dict(
          '/ in-place, overwrite_a/b operands written and handed back, rules 1-7 of its docstring; rule 6: a callback is an '
          'object, writes none of its arguments, and what it returns may reference its arguments or its own closure; rule 2: '
          'parameters that no Args entry documents stay at their default -- e.g. optima_tt_beam(to_orth=False), which rescales '
-         'the end core of its argument in place, is outside the property because to_orth is not in the Args; `flag is False / '
+         'the end core of its argument in place, is outside the property because to_orth is not in the Args; rule 3 (x is a number in the true branch of _is_num(x)) is granted only while the source of utils._is_num is `return '
+         'isinstance(A, <immutable number types>)`; `flag is False / '
          'True` tests on a parameter are left undecided because 0 / np.bool_ are equally falsy; rule 5 is withdrawn: every loop '
          'may run zero times, so d = 1, q = 1, single samples and empty lists are covered; rule 7: name bound to np.where / a '
          'mask, or an entry X[..., k], is an advanced index (copy); rule 8: a basic-index view of a core of a documented '
@@ -56,7 +57,8 @@ CLAIM = dict(
          'arguments given as C-contiguous int64 / float64 ndarrays (so that asanyarray / ascontiguousarray / grid_prep_opt(s) '
          'are the identity), scalar options written out as arrays, batches reduced to a single point or a single row, the whole '
          'call reduced to one dimension (d = 1), boolean flags passed as 0 / 1, np.bool_ and None, the optional arguments of two '
-         'recipes of a function supplied together, and core_stab swept over every binade 2^-6 .. 2^6 above and below its '
+         'recipes of a function supplied together, iterative drivers with a stop criterion already met at entry, number operands '
+         'passed as NumPy scalars and as (mutable) 0-d ndarrays, and core_stab swept over every binade 2^-6 .. 2^6 above and below its '
          'threshold. Result objects that a function also stores into '
          'the info / cache dictionaries are covered by the exception (info / cache may reach them). Exported classes (ANOVA, '
          'ANOVA_func) and underscore helpers are analysed as callees only. Heap model: a view / slice / reshape of an array '
@@ -798,7 +800,11 @@ def run_case(tn, g, name, label, args, kw, probes=True, tolerant=False):
 # arguments are compared all the same).
 SINGLE_PARAMS = {'X', 'I', 'i', 'x', 'X_trn', 'I_trn', 'X_vld', 'I_vld', 'I_data', 'X_data', 'I_qtt', 'I_tt'}
 DERIVED_MODES = [(dt, arr, single) for single in (False, True) for arr in (False, True) for dt in ('i', 'f')] + \
-    [('d1', False, False), ('m1', False, False), ('flags', 'int', False), ('flags', 'np', False), ('flags', 'none', False)]
+    [('d1', False, False), ('m1', False, False), ('flags', 'int', False), ('flags', 'np', False), ('flags', 'none', False),
+     ('num', 'npscalar', False), ('num', '0d', False)]
+# 'num': every Python number passed for a parameter that also accepts a tensor / array (Y1, Y2 of add / mul / sub, the entries
+#        of add_many, copy(Y), grid options a, b, n, ranks r, ...) is passed as a NumPy scalar (np.float64 / np.int64, immutable)
+#        and as a 0-d ndarray (np.array(2.5): MUTABLE -- handing it back unchanged is an alias like any other).
 # 'flags': every boolean flag of the call (passed or left at its default) in another form of the same truthiness: 0 / 1,
 #          np.bool_(False) / np.bool_(True), and None for a False flag (tolerated if the function rejects it).
 # 'merge': the optional arguments that ANOTHER recipe of the same function supplies are added to this call (interaction of
@@ -988,8 +994,42 @@ def merged(tn, name, case_a, case_b):
     return list(ba.args), dict(ba.kwargs), added
 
 
+def _renum(tn, g, name, args, kw, mode):
+    f = getattr(tn, name)
+    try:
+        sig = inspect.signature(f)
+        ba = sig.bind(*args, **kw)
+    except Exception:
+        return None
+    ex = g.pkg.exports.get(name)
+    info = g.pkg.funcs.get(ex[1]) if ex else None
+    doct = info.doctypes if info else {}
+
+    def conv(v):
+        if mode[1] == 'npscalar':
+            return np.int64(v) if isinstance(v, (int, np.integer)) else np.float64(v)
+        return np.array(v)
+    signature = []
+    for k, v in list(ba.arguments.items()):
+        par = sig.parameters[k]
+        if par.kind in (par.VAR_POSITIONAL, par.VAR_KEYWORD):
+            continue
+        accepts = (not doct) or (k in doct and re.search(r'int|float', doct[k][0]) and re.search(r'list|ndarray', doct[k][0]))
+        if _is_num(v) and accepts:
+            ba.arguments[k] = conv(v)
+            signature.append((k, 'num', mode[1]))
+        elif isinstance(v, list) and any(_is_num(x) for x in v) and any(_is_tt(x) for x in v):
+            ba.arguments[k] = [conv(x) if _is_num(x) else x for x in v]
+            signature.append((k, 'num', mode[1]))
+    if not signature:
+        return None
+    return list(ba.args), dict(ba.kwargs), tuple(signature)
+
+
 def derive(tn, g, name, args, kw, mode):
     """(args', kw', signature) of the derived call, or None when the function signature does not bind"""
+    if mode[0] == 'num':
+        return _renum(tn, g, name, args, kw, mode)
     if mode[0] in ('d1', 'm1'):
         return _shrink(tn, name, args, kw, mode)
     if mode[0] == 'flags':
@@ -1043,7 +1083,7 @@ def _same_as_base(sig, args, kw, tn, name):
     ba = inspect.signature(getattr(tn, name)).bind(*args, **kw).arguments
     for x in sig:
         v = ba.get(x[0])
-        if len(x) >= 2 and x[1] in ('d1', 'm1', 'flags'):
+        if len(x) >= 2 and x[1] in ('d1', 'm1', 'flags', 'num'):
             return False
         if len(x) == 4:
             if not (isinstance(v, np.ndarray) and str(v.dtype) == x[1] and v.shape == x[2] and v.flags['C_CONTIGUOUS']):
@@ -1063,6 +1103,8 @@ def mode_label(mode):
         return 'reduced to one dimension (d = 1)'
     if mode[0] == 'm1':
         return 'batch of a single sample (m = 1)'
+    if mode[0] == 'num':
+        return 'number operands as ' + {'npscalar': 'NumPy scalars (np.float64 / np.int64)', '0d': '0-d ndarrays'}[mode[1]]
     if mode[0] == 'flags':
         return 'boolean flags as ' + {'int': '0 / 1', 'np': 'np.bool_', 'none': 'None (for False)'}[mode[1]]
     dt, arrayify, single = mode
